@@ -12,6 +12,7 @@ import (
 	"sort"
 	"sync"
 
+	"github.com/dgraph-io/badger/v4/vhook"
 	"github.com/dgraph-io/badger/v4/y"
 	"github.com/dgraph-io/ristretto/v2/z"
 )
@@ -77,6 +78,9 @@ func (lf *discardStats) get(offset int) uint64 {
 }
 func (lf *discardStats) set(offset int, val uint64) {
 	binary.BigEndian.PutUint64(lf.Data[offset:offset+8], val)
+	if vhook.On && lf.Fd != nil {
+		vhook.IO("mwrite-discard", lf.Fd.Name(), int64(offset), 8)
+	}
 }
 
 // zeroOut would zero out the next slot.
